@@ -607,6 +607,14 @@ func checkMemory(e *executor, r *stepResult, mv *memView) *vfkit.Violation {
 		}
 		zone, ok := mv.alloc.AssignedZone(c.ID)
 		if !ok {
+			// no allocation (it failed and the policy fell back to something):
+			// whatever the policy told must still be a set the kernel accepts
+			if len(c.ToldMems) > 0 {
+				if got := set(c.Res.Mems); !got.Empty() && !got.SubsetOf(memNodes) {
+					return viol(P, "memory set consists of existing nodes that have memory", "mems-without-memory:unallocated",
+						"after %s: %s (no memory allocation) told mems %s, nodes with memory %s", r.Desc, c.ID, got, memNodes)
+				}
+			}
 			continue
 		}
 		want := vfkit.NewIDSet(zone.Slice()...)
